@@ -4,6 +4,7 @@ CONSTANTS
   Ms <- L_M1
   Ks <- L_K1
   Bs <- L_B2
+  Polys <- L_P0
   Fs <- L_F1
   Q0s <- L_Q2
   V0s <- L_V2
@@ -39,4 +40,5 @@ INVARIANT ImplicitIsEulerDamp
 INVARIANT RK4Taylor
 INVARIANT RK4ConstAcc
 INVARIANT DamperContracts
+INVARIANT PolyDampLaw
 CHECK_DEADLOCK FALSE
